@@ -204,8 +204,10 @@ class BvWidth(Contract):
             # Pw: the proof is instantiated per width of a stated family
             for c in fam:
                 if ex.decide(w == c):
-                    S.pow2(z3.IntVal(c))      # its value lemma links pow2(<width term>) to 2**c
-                    S.pow2(z3.IntVal(c - 1))
+                    # the value lemmas link pow2(<width / index term>) to 2**j for every j up to the width (sub-widths of
+                    # extractions, shifts and rotations inside the word)
+                    for j in range(c + 1):
+                        S.pow2(z3.IntVal(j))
                     return c
             raise PathAbort("width-outside-family")
         return w
